@@ -268,6 +268,25 @@ func escCheck(e *escEnv, pre, post escState, preModule sdk.Int, focus types.Acco
 		}
 		verif_Assert(x.addr != verif_Addr(3) && x.addr != verif_Addr(4), "C01 payouts go only to parties of the account operated on")
 	}
+	// C02: a payee is credited only through its own account, never more than rate x elapsed blocks
+	for key, p0 := range pre.pays {
+		p1, ok := post.pays[key]
+		if !ok {
+			continue
+		}
+		got := p1.Balance.Amount.Add(p1.Withdrawn.Amount).Sub(p0.Balance.Amount.Add(p0.Withdrawn.Amount))
+		if p0.AccountID != focus {
+			verif_Assert(got.IsZero(), "C02 a payee is credited only by settlements of its own account")
+			continue
+		}
+		if a0, ok := pre.accs[focus]; ok {
+			elapsed := sdk.NewInt(e.H - a0.SettledAt)
+			verif_Assert(verif_And(got.GTE(sdk.ZeroInt()), got.LTE(p0.Rate.Amount.Mul(elapsed))), "C02 a payee never receives more than price x blocks elapsed")
+			if p0.State != types.PaymentOpen {
+				verif_Assert(got.IsZero(), "C02 a closed or overdrawn payment never accrues")
+			}
+		}
+	}
 	// the chain's own genesis validation accepts the exported state
 	gen := ExportGenesis(e.ctx, e.k)
 	verif_Assert(ValidateGenesis(gen) == nil, "C03 exported escrow state passes genesis validation")
